@@ -29,3 +29,8 @@ func (ps *Pieces) VerifHolds(index uint32) bool {
 	defer ps.mu.RUnlock()
 	return ps.pieces[index].data != nil
 }
+
+// VerifBusy reports whether a piece's hash is being computed.
+func (ps *Pieces) VerifBusy(index uint32) bool {
+	return ps.pieces[index].Busy()
+}
